@@ -343,7 +343,7 @@ def gen_block(rng, kind='wellposed'):
     n_ic = rng.choice([0, 0, 1, 1, 2, 3])
     ic_vars = rng.sample(allvars, min(n_ic, len(allvars)))
     for v in ic_vars:
-        lines.append('%s(0) = %s' % (v, rng.choice(['7', '5.5', '1', '-2', '0.25', '40.'])))
+        lines.append('%s(0) = %s' % (v, rng.choice(['7', '5.5', '1', '-2', '0.25', '40.', '0', '0.0', '0.', '-0.0'])))
         if any(v == a for a, _, _ in alias):
             feats.add('ic-on-alias')
         elif any(v == tgt for _, tgt, _ in alias):
